@@ -60,6 +60,13 @@ Definition slice_indices (len : nat) (s : pyslice) : option (list nat) :=
 Definition select {A} (l : list A) (idx : list nat) : list A :=
   flat_map (fun i => match nth_error l i with Some x => [x] | None => [] end) idx.
 
+(* row-group level filters: `filter_row_groups` keeps some of the handle's row groups; the decision for each of them, in order *)
+Fixpoint keep_mask {A} (m : list bool) (l : list A) : list A :=
+  match m, l with
+  | b :: m', x :: l' => if b then x :: keep_mask m' l' else keep_mask m' l'
+  | _, _ => []
+  end.
+
 Definition py_slice {A} (s : pyslice) (l : list A) : option (list A) :=
   option_map (select l) (slice_indices (length l) s).
 
@@ -245,7 +252,9 @@ Section Read.
 
   (* ---------------- access programs ----------------------------------------------------------- *)
 
-  Inductive hop := HSlice (s : pyslice) | HPick (i : Z) | HPickle | HCopy | HDeepcopy.
+  (* HKeep m: the reads `to_pandas / iter_row_groups / count (filters=F)` work on the row groups filter_row_groups keeps
+     (m = its decision per row group of the handle); what the decision must be is C05's subject *)
+  Inductive hop := HSlice (s : pyslice) | HPick (i : Z) | HPickle | HCopy | HDeepcopy | HKeep (m : list bool).
   Inductive rd := RToPandas (o : ropts) | RIter (o : ropts) | RHead (n : nat) (o : ropts) | RCount | RLen.
   Inductive out := OFrames (l : list frame) | ONat (n : nat).
 
@@ -256,6 +265,7 @@ Section Read.
     | HPickle => pickle h
     | HCopy => Ok h            (* copy.copy: new object, same fmd *)
     | HDeepcopy => Ok h        (* copy.deepcopy: structurally equal fmd *)
+    | HKeep m => Ok (with_rgs h (keep_mask m (h_rgs h)))
     end.
 
   Fixpoint apply_hops (h : handle) (ops : list hop) : res handle :=
